@@ -491,9 +491,9 @@ def element_effects():
         if isinstance(f, ast.FunctionDef):
             if f.name == 'value_' and any(ast.unparse(d) == 'value_.setter' for d in f.decorator_list):
                 fns['value_set'] = f
-            elif f.name in ('add_child', 'remove') and not f.decorator_list:
+            elif f.name in ('add_child', 'remove', 'replace_child') and not f.decorator_list:
                 fns[f.name] = f
-    for need in ('add_child', 'remove', 'value_set'):
+    for need in ('add_child', 'remove', 'value_set', 'replace_child'):
         if need not in fns:
             raise Fail('XMLElement.%s not found' % need)
 
@@ -513,8 +513,10 @@ def element_effects():
             inner = []
             for x in st.body + st.orelse:
                 inner += classify(x, helpers)
-            if test in ('self.xsd_check', 'not self._child_container_tree') or test.startswith('parent_container.chosen_child =='):
+            if test in ('self.xsd_check', 'not self._child_container_tree', 'not list_of_olds') or test.startswith('parent_container.chosen_child =='):
                 return inner
+            if test == "hasattr(old, '__call__')" and inner == ['ReadMayRaise', 'ReadMayRaise']:
+                return ['ReadMayRaise']
             raise Fail('unrecognised condition: ' + test)
         if u.startswith('self._child_container_tree.add_element('):
             return ['Matcher']
@@ -524,8 +526,20 @@ def element_effects():
             return ['Append']
         if u in ('child._parent = self', 'child._parent = None'):
             return ['SetParent']
-        if u.startswith('self.TYPE(val'):
+        if u.startswith('self.TYPE(val') or u == 'self._check_child_to_be_added(new)':
             return ['Validate']
+        if u.startswith('list_of_olds = [ch for ch in self.get_children(ordered=True) if ') or u == 'old_index = self._unordered_children.index(list_of_olds[index])':
+            return ['ReadMayRaise']
+        if u in ('old_child = self._unordered_children[old_index]', 'parent_xsd_element = old_child.parent_xsd_element'):
+            return ['Read']
+        if u == 'self._unordered_children.remove(old_child)':
+            return ['ListRemove']
+        if u == 'self._unordered_children.insert(old_index, new)':
+            return ['Append']
+        if u in ('new._parent = self', 'old._parent = None'):
+            return ['SetParent']
+        if u == 'new.parent_xsd_element = parent_xsd_element' or u.startswith('parent_xsd_element._xml_elements = [new if el == old_child else el for el in'):
+            return ['Container']
         if u == 'self._value = val':
             return ['Store']
         if isinstance(st, ast.Assign) and len(st.targets) == 1 and isinstance(st.targets[0], ast.Name):
@@ -797,17 +811,17 @@ def main():
         o.append('Definition tr_parser_ok := false. (* %s *)' % str(ex).replace('*', ' ').replace('\n', ' '))
         o.append('Definition parser_text_ladder : list (conv * list pexn) := [].')
         o.append('Definition parser_attr_ladder : list (conv * list pexn) := [].')
-    o.append('Inductive eeff := XRaise | XMatcher | XListRemove | XAppend | XSetParent | XRead | XContainer | XValidate | XStore.')
+    o.append('Inductive eeff := XRaise | XMatcher | XListRemove | XAppend | XSetParent | XRead | XReadMayRaise | XContainer | XValidate | XStore.')
     try:
         ee = element_effects()
         side['element_effects'] = ee
         o.append('Definition tr_element_ok := true.')
-        for k in ('add_child', 'remove', 'value_set'):
+        for k in ('add_child', 'remove', 'value_set', 'replace_child'):
             o.append('Definition elt_%s : list eeff := [%s].' % (k, '; '.join('X' + e for e in ee[k])))
     except Fail as ex:
         side['element_effects'] = 'FAILED: ' + str(ex)
         o.append('Definition tr_element_ok := false. (* %s *)' % str(ex).replace('*', ' ').replace('\n', ' '))
-        for k in ('add_child', 'remove', 'value_set'):
+        for k in ('add_child', 'remove', 'value_set', 'replace_child'):
             o.append('Definition elt_%s : list eeff := [].' % k)
     o.append('Inductive gating_shape := GuardOwnThenRecurse | GuardAll | NoGuard.')
     try:
